@@ -175,18 +175,23 @@ impl Harness for C20 {
     }
 
     fn rule(&self) -> String {
-        "one execution = one operation instance on one fully determined operand tuple (shape(s), value alphabet, layout(s)) run on all three backends; non-trivial = the operands are inside the operation's domain; distinct = distinct digest of the three backends' returned values / panics".into()
+        "one execution = one operation instance (or one estimator / decomposition configuration) on one fully determined operand tuple (shape(s), value alphabet, layout(s); data set, targets, layout) run on all three backends; non-trivial = the operands are inside the operation's domain (estimators: the built-in backend returned values); distinct = distinct digest of the three backends' returned values / panics; E2: one state = one operation history applied to a real object of each backend".into()
     }
 
     fn assumptions(&self) -> Vec<String> {
         vec![
             "operands are brought into each backend through zeros + set (+ transpose); that this reproduces the logical content is checked in every case through shape + get".into(),
-            "no RNG is involved in any explored path (BaseMatrix::rand is excluded)".into(),
+            "no RNG is involved in any explored path (BaseMatrix::rand, SVC and k-means are excluded; the forests use their seeded StdRng, identical on all backends)".into(),
+            "Lasso / ElasticNet fits on the two bindings run in a child process of the same binary under a CPU-time deadline; a fit that exceeds it is reported as not terminating".into(),
+            "HashMap iteration order only influences the last ulp of entropy-based metrics; observation digests of estimators are rounded to 9 significant digits".into(),
         ]
+    }
+
+    fn engine(&self) -> &'static str {
+        "E1 stateless choice-tree exploration of the real code on three backends (differential + reference model) and E2 explicit-state search over operation histories"
     }
 }
 
-/// data points: the quick tier uses the first 6, the thorough tier the whole 3x3 grid
 const LATTICE: [(f64, f64); 9] = [(0.0, 0.0), (1.0, 0.0), (0.0, 1.0), (1.0, 1.0), (2.0, 1.0), (1.0, 2.0), (2.0, 0.0), (0.0, 2.0), (2.0, 2.0)];
 const SIGMA5: [f64; 5] = [0.0, 1.0, -1.0, 2.0, -2.0];
 const Y_REG: [[f64; 5]; 3] = [[1.0, 2.0, 3.0, 5.0, 4.0], [0.0, -1.0, 4.0, 2.0, -2.0], [2.0, 2.0, -3.0, 1.0, 2.0]];
